@@ -106,6 +106,10 @@ var c03Entries = []c03Entry{
 
 // c03One runs one (input, entry) pair.
 func c03One(input []byte, network bool, e c03Entry, typed, strct reflect.Type, plain bool) *pbt.Violation {
+	return c03OneOpt(input, network, e, typed, strct, plain, true)
+}
+
+func c03OneOpt(input []byte, network bool, e c03Entry, typed, strct reflect.Type, plain, runPost bool) *pbt.Violation {
 	src := iox.NewSrc(input)
 	var r io.Reader = iox.ByteSrc{Src: src}
 	if plain {
@@ -129,7 +133,7 @@ func c03One(input []byte, network bool, e c03Entry, typed, strct reflect.Type, p
 				"entry %s returned nil error on % x (consumed %d of %d bytes); reference reader: %v (n=%d)", e.name, clipB(input), src.Pos, len(input), derr, n)
 		}
 	}
-	if post != nil {
+	if post != nil && runPost {
 		if pv, stack := pbt.Try(post); pv != nil {
 			return pbt.V(pbt.PanicKey("c03."+e.name+".post", stack), "never panics", "follow-up calls of %s after decoding % x panicked: %v\n%s", e.name, clipB(input), pv, stack)
 		}
@@ -155,7 +159,52 @@ func malformClass(err error) string {
 	return "other"
 }
 
-type c03Stats struct{ inputs, calls, trunc, field, extra, skippedBig int64 }
+type c03Stats struct{ inputs, calls, trunc, field, extra, skippedBig, huge, dup, reuse int64 }
+
+// entries that never allocate what a length field declares (they skip, copy or print as they read):
+// they are also fed planted lengths far beyond 2^20.
+var c03NoAlloc = map[string]bool{"skip": true, "raw": true, "snbt": true}
+
+// growTree returns a copy in which every string, array and list is longer.
+func growTree(t *rn.Tag) *rn.Tag {
+	n := *t
+	switch t.Type {
+	case rn.String:
+		n.S = append(append([]byte{}, t.S...), "xx"...)
+	case rn.ByteArray:
+		n.B = append(append([]byte{}, t.B...), 1, 2, 3)
+	case rn.IntArray:
+		n.Ints = append(append([]int32{}, t.Ints...), 1, 2, 3)
+	case rn.LongArray:
+		n.Longs = append(append([]int64{}, t.Longs...), 1, 2, 3)
+	case rn.List:
+		n.L = nil
+		for _, e := range t.L {
+			n.L = append(n.L, growTree(e))
+		}
+		if len(t.L) > 0 {
+			n.L = append(n.L, growTree(t.L[0]))
+		}
+	case rn.Compound:
+		n.V = nil
+		for _, e := range t.V {
+			n.V = append(n.V, growTree(e))
+		}
+	}
+	return &n
+}
+
+// dupTree: a compound in which every key occurs twice, the second time with the grown value
+// (well-formed bytes; decoders meet a destination that was already filled).
+func dupTree(t, grown *rn.Tag) *rn.Tag {
+	if t.Type != rn.Compound {
+		return nil
+	}
+	n := &rn.Tag{Type: rn.Compound}
+	n.K = append(append([][]byte{}, t.K...), grown.K...)
+	n.V = append(append([]*rn.Tag{}, t.V...), grown.V...)
+	return n
+}
 
 func c03Check(c C03Case) *pbt.Violation { v, _ := c03Run(c, false); return v }
 
@@ -216,6 +265,73 @@ func c03Run(c C03Case, record bool) (*pbt.Violation, c03Stats) {
 			return v, st
 		}
 	}
+	// ---- planted lengths far beyond 2^20, for the entries that never allocate by length
+	nh := 0
+	for _, r := range layout {
+		if (r.Kind != rn.KArrLen && r.Kind != rn.KListLen) || nh >= 6 {
+			continue
+		}
+		nh++
+		for _, val := range []uint32{0x7fffffff, 0x40000000, 0x20000000, 0x10000000, 0x08000001} {
+			in := gen.Mut{Kind: "set32", Off: r.Off, Val: val}.Apply(doc)
+			st.huge++
+			for i, e := range c03Entries {
+				if !c03NoAlloc[e.name] {
+					continue
+				}
+				st.calls++
+				if v := c03OneOpt(in, c.Network, e, typed, strct, i%2 == 0, false); v != nil {
+					v.Msg += fmt.Sprintf("\n mutation class: huge planted length %#x; original tree: %s", val, c.Tree)
+					c.OnlyInput, c.OnlyEntry = in, e.name
+					pbt.SaveReplay("C03", c, v)
+					return v, st
+				}
+			}
+		}
+	}
+	// ---- well-formed documents that meet an already filled destination: every key twice
+	// (second occurrence longer), and a second, longer document decoded into the same value
+	grown := growTree(c.Tree)
+	gdoc, _ := rn.Encode(grown, c.Network, c.Name)
+	if d := dupTree(c.Tree, grown); d != nil {
+		ddoc, _ := rn.Encode(d, c.Network, c.Name)
+		st.dup++
+		if v := try(ddoc, "duplicate-keys"); v != nil {
+			return v, st
+		}
+	}
+	i8TD, _, _ := gm.TypedOf(c.Tree, gm.TypedOpts{StructDepth: 3, SignedBytes: true})
+	for _, typ := range []reflect.Type{typed, strct, i8TD.Type()} {
+		for _, second := range [][]byte{gdoc, doc} {
+			st.reuse++
+			dst := reflect.New(typ)
+			first, next := doc, second
+			if bytes.Equal(second, doc) {
+				first = gdoc // longer first, then shorter
+			}
+			pv, stack := pbt.Try(func() {
+				_, _ = newDec(bytes.NewReader(first), c.Network, false).Decode(dst.Interface())
+				_, _ = newDec(bytes.NewReader(next), c.Network, false).Decode(dst.Interface())
+			})
+			if pv != nil {
+				v := pbt.V(pbt.PanicKey("c03.reuse", stack), "never panics", "decoding a second document into an already used %s panicked: %v\n%s\n tree %s", typ, pv, stack, c.Tree)
+				pbt.SaveReplay("C03", c, v)
+				return v, st
+			}
+		}
+	}
+	// the duplicate-key document into the int8-typed struct as well
+	if d := dupTree(c.Tree, grown); d != nil {
+		ddoc, _ := rn.Encode(d, c.Network, c.Name)
+		pv, stack := pbt.Try(func() {
+			_, _ = newDec(bytes.NewReader(ddoc), c.Network, false).Decode(reflect.New(i8TD.Type()).Interface())
+		})
+		if pv != nil {
+			v := pbt.V(pbt.PanicKey("c03.dupkey-i8", stack), "never panics", "decoding a document with repeated keys into %s panicked: %v\n%s\n tree %s", i8TD.Type(), pv, stack, c.Tree)
+			pbt.SaveReplay("C03", c, v)
+			return v, st
+		}
+	}
 	return nil, st
 }
 
@@ -263,6 +379,9 @@ func TestC03(t *testing.T) {
 		tot.field += st.field
 		tot.extra += st.extra
 		tot.skippedBig += st.skippedBig
+		tot.huge += st.huge
+		tot.dup += st.dup
+		tot.reuse += st.reuse
 		if st.inputs > 0 && tot.inputs%50 < st.inputs {
 			pbt.Ev.Sample(map[string]any{"test": "C03", "tree": c.Tree.String(), "network": c.Network, "extra": c.Extra, "inputs_tried": st.inputs})
 		}
@@ -279,6 +398,9 @@ func TestC03(t *testing.T) {
 	pbt.Ev.LabelN("inputs_field_overwrite", tot.field)
 	pbt.Ev.LabelN("inputs_flip_splice_raw", tot.extra)
 	pbt.Ev.LabelN("excluded_declared_length_above_2^20", tot.skippedBig)
+	pbt.Ev.LabelN("inputs_huge_planted_length_nonallocating_entries", tot.huge)
+	pbt.Ev.LabelN("inputs_duplicate_keys", tot.dup)
+	pbt.Ev.LabelN("reused_destination_decodes", tot.reuse)
 	pbt.Ev.LabelN("documents", int64(n))
 }
 
